@@ -56,6 +56,7 @@ class Gen:
         self.r = r
         self.f = feats
         self.depth = 0
+        self.rdepth = 0
 
     def ident(self):
         if self.f.get("digit") and self.r.chance(0.25):
@@ -75,16 +76,18 @@ class Gen:
         return ["["] + [("eolterm" if self.r.chance(0.3) else self.simple_match()) for _ in range(n)] + ["]"]
 
     def rrel_elem(self):
-        k = self.r.weighted([("nav", 6), ("parent", 2), ("brackets", 2), ("fixed", 2 if self.f.get("fixed") else 0)])
+        k = self.r.weighted([("nav", 6), ("parent", 2), ("brackets", 2 if self.rdepth < 1 else 0), ("fixed", 2 if self.f.get("fixed") else 0)])
         if k == "nav":
             return (["~"] if self.r.chance(0.3) else []) + [self.r.choice(["a", "b", "ref", "parent", "x1"])]
         if k == "parent":
             return ["parent", "(", self.r.choice(["A", "Some_Type", "ID"]), ")"]
         if k == "fixed":
             return [self.r.choice(["'n'", '"k"', "'a\\'b'"]), "~", self.r.choice(["a", "b"])]
-        self.depth += 1
-        s = ["("] + (self.rrel_seq() if self.depth < 3 else ["a"]) + [")"]
-        self.depth -= 1
+        # only ONE level of RREL brackets: the compiler's RREL grammar ((part '.')* part) re-parses every nested
+        # bracket twice per level, so the real parser needs time exponential in the nesting depth (seconds at depth 3)
+        self.rdepth += 1
+        s = ["("] + (self.rrel_seq() if self.rdepth < 2 else ["a"]) + [")"]
+        self.rdepth -= 1
         return s
 
     def rrel_path(self):
@@ -363,11 +366,12 @@ def run(chk):
     outs = run_texts(texts)
     chk.notes.append("impl %d texts %.1fs" % (len(texts), time.time() - t0))
     failures, disagreements = [], []
-    suspects = []
+    suspects, timeouts = [], []
     for c, o in zip(cases, outs):
         c["impl"] = o
         if o.get("timeout"):
-            disagreements.append({"case": c, "impl": "runner timeout"})
+            timeouts.append(c["text"])
+            chk.stat("skipped: a real parser needed more than 20 s")
             continue
         acc_l, acc_t = compiler_accepts(o), tx_accepts(o)
         chk.count(c["text"], nontrivial=acc_l or acc_t or len(c["text"]) > 8)
@@ -381,6 +385,8 @@ def run(chk):
             suspects.append(c)
         if chk.cov["evaluations"] % 97 == 5:
             chk.sample({"text": c["text"], "compiler": o["api_lang"], "textx_tx": o["api_tx"]})
+    if len(timeouts) * 50 > len(cases):
+        disagreements.append({"case": "more than 2% of the texts exceeded the per-text timer", "impl": timeouts[:3]})
     # attribution: in the class of a finding AND the repaired text is agreed upon
     rep_texts = [repair(c["text"]) for c in suspects]
     rep_outs = run_texts(rep_texts) if suspects else []
